@@ -5,6 +5,7 @@ CONSTANTS
   BlockSize = 64
   Prefix = 15
   Cksum = 4
+  OffMod = 130
   CODE_CapacityIgnoresPrefix = TRUE
   Depth = 4
 SPECIFICATION GSpec
